@@ -881,6 +881,13 @@ func writeLock(chartpath string, lock *chart.Lock, legacyLockfile bool) error {
 		lockfileName = "requirements.lock"
 	}
 	dest := filepath.Join(chartpath, lockfileName)
+	// Never write through a symlink planted at the lock file's path: the
+	// lock file belongs inside the chart directory.
+	if fi, err := os.Lstat(dest); err == nil && fi.Mode()&os.ModeSymlink != 0 {
+		if err := os.Remove(dest); err != nil {
+			return err
+		}
+	}
 	return os.WriteFile(dest, data, 0644)
 }
 
